@@ -774,6 +774,151 @@ def r_mutdef(E):
     return res
 
 
+# ---------------------------------------------------------------------------------------------- R-MEMOSCOPE
+_MS_POSITIVE = '''
+class Store:
+    _memo = None
+    @property
+    def flow(self):
+        memo = self._memo
+        if memo is None:
+            return self.compute()
+        if "flow" not in memo:
+            memo["flow"] = self.compute()
+        return memo["flow"]
+    def compute_all(self):
+        self._memo = {}
+        super().compute_all()
+'''
+_MS_NEGATIVE = '''
+class Store:
+    _memo = None
+    @property
+    def flow(self):
+        memo = self._memo
+        if memo is None:
+            return self.compute()
+        if "flow" not in memo:
+            memo["flow"] = self.compute()
+        return memo["flow"]
+    def compute_all(self):
+        self._memo = {}
+        try:
+            super().compute_all()
+        finally:
+            self._memo = None
+    def compute_some(self):
+        self._memo = {}
+        self.work()
+        self._memo.clear()
+class Registry:
+    def __init__(self):
+        self.index = {}
+    def add(self, k, v):
+        if k not in self.index:
+            self.index[k] = v
+        return self.index[k]
+'''
+
+
+def unclosed_memos(tree):
+    """[(class, method, attribute, opening statement)]: a method other than __init__ binds `self.X` to a fresh empty dict,
+    some method of the class serves values out of X (`if k not in M: M[k] = …` with M `self.X` or a local bound to it), and
+    the method that opened X never closes it (`self.X = None`, `self.X.clear()`, `del self.X`, a fresh dict again later) —
+    not in a `finally`, not in straight line, not in a method of the class it calls"""
+    out = []
+    for cls in [c for c in ast.walk(tree) if isinstance(c, ast.ClassDef)]:
+        meths = [m for m in cls.body if isinstance(m, ast.FunctionDef)]
+
+        def memo_attrs():
+            found = set()
+            for m in meths:
+                al = {}
+                for st in ast.walk(m):
+                    if isinstance(st, ast.Assign) and len(st.targets) == 1 and isinstance(st.targets[0], ast.Name) \
+                            and isinstance(st.value, ast.Attribute) and isinstance(st.value.value, ast.Name) \
+                            and st.value.value.id == "self":
+                        al[st.targets[0].id] = st.value.attr
+
+                def attr_of(e):
+                    if isinstance(e, ast.Attribute) and isinstance(e.value, ast.Name) and e.value.id == "self":
+                        return e.attr
+                    if isinstance(e, ast.Name):
+                        return al.get(e.id)
+                    return None
+                stored = {attr_of(t.value) for st in ast.walk(m) if isinstance(st, ast.Assign) for t in st.targets
+                          if isinstance(t, ast.Subscript)}
+                tested = {attr_of(c.comparators[0]) for c in ast.walk(m) if isinstance(c, ast.Compare) and len(c.ops) == 1
+                          and isinstance(c.ops[0], (ast.NotIn, ast.In))}
+                found |= (stored & tested) - {None}
+            return found
+        memos = memo_attrs()
+        if not memos:
+            continue
+
+        def is_open(st, x):
+            return isinstance(st, ast.Assign) and any(
+                isinstance(t, ast.Attribute) and isinstance(t.value, ast.Name) and t.value.id == "self" and t.attr == x
+                for t in st.targets) and (
+                (isinstance(st.value, ast.Dict) and not st.value.keys)
+                or (isinstance(st.value, ast.Call) and isinstance(st.value.func, ast.Name) and st.value.func.id in ("dict", "defaultdict", "OrderedDict")))
+
+        def closes(m, x, seen=()):
+            for st in ast.walk(m):
+                if isinstance(st, ast.Assign) and any(
+                        isinstance(t, ast.Attribute) and isinstance(t.value, ast.Name) and t.value.id == "self" and t.attr == x
+                        for t in st.targets) and isinstance(st.value, ast.Constant) and st.value.value is None:
+                    return True
+                if isinstance(st, ast.Delete) and any(isinstance(t, ast.Attribute) and isinstance(t.value, ast.Name)
+                                                      and t.value.id == "self" and t.attr == x for t in st.targets):
+                    return True
+                if isinstance(st, ast.Call) and isinstance(st.func, ast.Attribute) and st.func.attr == "clear" \
+                        and isinstance(st.func.value, ast.Attribute) and isinstance(st.func.value.value, ast.Name) \
+                        and st.func.value.value.id == "self" and st.func.value.attr == x:
+                    return True
+                if isinstance(st, ast.Call) and isinstance(st.func, ast.Attribute) and isinstance(st.func.value, ast.Name) \
+                        and st.func.value.id == "self" and st.func.attr not in seen:
+                    h = next((y for y in meths if y.name == st.func.attr), None)
+                    if h is not None and h is not m and closes(h, x, seen + (m.name,)):
+                        return True
+            return False
+        for m in meths:
+            if m.name == "__init__":
+                continue
+            for x in sorted(memos):
+                opens = [st for st in ast.walk(m) if is_open(st, x)]
+                if opens and not closes(m, x):
+                    out.append((cls, m, x, opens[0]))
+    return out
+
+
+@rule("R-MEMOSCOPE")
+def r_memoscope(E):
+    pm = E.pm
+    res = RuleResult("R-MEMOSCOPE", "a per-pass memo — an attribute that a method binds to a fresh dict and out of which "
+                                    "properties of the class serve values computed from the model — is closed again by the "
+                                    "method that opened it (set to None, cleared): a memo left open keeps serving the values of "
+                                    "that pass after inputs have changed, so later update rules read values that are not up "
+                                    "to date")
+    for mod, (rel, tree, src) in sorted(pm.modules.items()):
+        res.instances += len([c for c in ast.walk(tree) if isinstance(c, ast.ClassDef)])
+        for cls, m, x, st in unclosed_memos(tree):
+            res.findings.append(Finding(
+                "R-MEMOSCOPE", f"{rel}:{cls.name}.{m.name} :: {x}",
+                f"{cls.name}.{m.name} opens the memo `self.{x}` (`{norm(st)}`) out of which the class serves computed values, "
+                f"and never closes it: once the pass is over the memo still answers, so a value computed from the inputs of "
+                f"that pass is served after an input has been edited (every later recomputation reads the stale value)",
+                rel, st.lineno, f"{cls.name}.{m.name}", {"clauses": _area(rel)}))
+    pos = unclosed_memos(set_parents(ast.parse(_MS_POSITIVE)))
+    neg = unclosed_memos(set_parents(ast.parse(_MS_NEGATIVE)))
+    if len(pos) != 1 or neg:
+        raise AnalysisError(f"R-MEMOSCOPE: embedded examples: {len(pos)} of 1 positive recognised, {len(neg)} false reports")
+    res.instances += 1
+    res.samples = [{"embedded_positive_example_recognised": True, "embedded_twins_silent": True}]
+    res.floor = 40
+    return res
+
+
 # ---------------------------------------------------------------------------------------------- R-ORDEFAULT
 @rule("R-ORDEFAULT")
 def r_ordefault(E):
